@@ -87,7 +87,9 @@ def monitorC05 (cx : Ctx) : List Finding := Id.run do
       let before := (calls.filter (·.lineNo < line)).reverse.head?.bind (·.snapInt "cur")
       let after := calls.reverse.head?.bind (·.snapInt "cur")
       let epiAdv := (calls.filter fun c => c.lineNo > line && c.call == ["adv"]).length
-      let dead := calls.any (·.result == "PANIC")
+      -- a spectator that was paused for more than the 60-frame buffer reports SpectatorTooFarBehind
+      -- from then on: the documented outcome (C06), not a wedge
+      let dead := calls.any fun c => c.result == "PANIC" || c.result == "err SpectatorTooFarBehind"
       let disconnected := cx.anyDisconnect
       match before, after with
       | some b, some a =>
